@@ -84,4 +84,57 @@ theorem no_value_column_refused (dims : DimSet) (c : Conv)
       | cons x xs => simp [containsPy]
   simp only [hv, hfind]
 
+/-! ## a label that is no item: fractional numbers in a column of an integer-typed dimension (D30) -/
+
+/-- the code as it stands keeps such a label as it is (regenerated from `_as_item`) -/
+theorem source_keeps_fractional_labels : Gen.convertKeepsFractionalLabels = true := by decide
+
+/-- `_convert_type` does not turn 2000.75 into the item 2000 -/
+theorem fractional_label_kept (d : Dim) (q : Rat) (hd : d.dtype = some .int) (hq : q.den ≠ 1) :
+    convLabel d (.num q true) = some (.num q true) := by
+  unfold convLabel keepsLabel
+  rw [hd]
+  simp [source_keeps_fractional_labels, hq]
+
+/-- … and it is not an item of a dimension whose items are integers -/
+theorem fractional_label_unknown (d : Dim) (q : Rat) (hv : d.valid = true) (hd : d.dtype = some .int)
+    (hq : q.den ≠ 1) : itemPos? d (.num q true) = none := by
+  unfold itemPos?
+  have hall : ∀ it ∈ d.items, (Cell.ofItem it).pyEq (.num q true) = false := by
+    intro it hit
+    unfold Dim.valid at hv
+    rw [hd] at hv
+    simp only [Bool.and_eq_true, List.all_eq_true] at hv
+    have ht := hv.2 it hit
+    cases it with
+    | str s => simp [Item.hasType] at ht
+    | int i =>
+      simp only [Cell.ofItem, Cell.pyEq, beq_eq_false_iff_ne, ne_eq]
+      intro h
+      apply hq
+      rw [← h]
+      simp
+  have hidx : (d.items.map Cell.ofItem).findIdx (·.pyEq (.num q true)) = (d.items.map Cell.ofItem).length := by
+    rw [List.findIdx_eq_length]
+    intro c hc
+    obtain ⟨it, hit, rfl⟩ := List.mem_map.mp hc
+    simp [hall it hit]
+  simp [hidx]
+
+/-- **a row carrying a fractional label in an integer-typed dimension is refused** (default
+`allow_extra_values=False`), whatever else the table holds: the label is converted to itself
+(`fractional_label_kept`), is no item, and `unknown_item_refused` applies -/
+theorem fractional_label_refused (d : Dim) (q : Rat) (hv : d.valid = true) (hd : d.dtype = some .int)
+    (hq : q.den ≠ 1) (t : LongTable) (m : Bool) (v : Option Rat) (hr : ([.num q true], v) ∈ t.rows) :
+    complete? [d] t m false = none := by
+  apply unknown_item_refused [d] t m ([.num q true], v) hr
+  simp [rowKnown, fractional_label_unknown d q hv hd hq]
+
+/-- non-vacuity: 2000.75 in the column of time = (2000, 2001) -/
+example :
+    let d : Dim := { letter := 't', name := "time", items := [.int 2000, .int 2001], dtype := some .int }
+    d.valid = true ∧ ((8003 : Rat) / 4).den ≠ 1 ∧ convLabel d (.num (8003 / 4) true) = some (.num (8003 / 4) true) ∧
+    complete? [d] ⟨[([.num (8003 / 4) true], some 1), ([.num 2001 false], some 2)]⟩ false false = none := by
+  decide +kernel
+
 end Flodym.C12
